@@ -116,6 +116,21 @@ def run_plan(pid, tier, seed, extra_cov=None, t0=None):
             p = C.write_replay(pid, "design-%s" % name, dict(kind="tlc-counterexample", config=name,
                                                              output=r["output"][-20000:]))
             violations.append(dict(prop=pid, replay=p, what="NomtApi invariant violated at design level"))
+    if pid == "C16" and not os.environ.get("VERIF_DEBUG_SKIP_MC"):
+        # finding F24 at design level (spec/Aba.tla): under the code's by-value validity check a changeset can be
+        # applied to a layout it was not prepared against (the counterexample must exist), under an epoch check it cannot
+        for guard, expect_ok in (("by-value", False), ("epoch", True)):
+            cfg = os.path.join(C.OUT, "Aba_%s_%s.cfg" % (pid, guard.replace("-", "")))
+            C.write_cfg(cfg, "Spec", dict(Values={1, 2}, Guard=guard, MaxSyncs=4), invariants=["LayoutKnowledgeCurrent"])
+            rc, out = C.run_tlc("Aba.tla", cfg, tag="aba" + pid, timeout=300, nworkers=2)
+            st, gen = C.tlc_stats(out)
+            ok = rc == 0 and "No error has been found" in out
+            if ok != expect_ok:
+                raise C.ToolError("Aba.tla with Guard=%s: expected ok=%s, got ok=%s\n%s" % (guard, expect_ok, ok, out[-1500:]))
+            states += st
+            trans += gen
+            mc_summ.append(dict(config="Aba Guard=%s (F24 %s)" % (guard, "counterexample" if not expect_ok else "excluded"),
+                                states=st, transitions=gen, ok=ok, wall_s=0))
     if pid == "C19" and not os.environ.get("VERIF_DEBUG_SKIP_MC"):
         # the free list of the value files has its own transcription (nothing lost, nothing handed out twice)
         from . import freelist
